@@ -193,6 +193,22 @@ CLAIMED = {
         'strings, unknown names in length/closure/destroy (a fatal scanner error). Known findings (not repaired, printed as '
         'KNOWN-FINDING): pass-3 callback heuristics overwrite explicit closure/scope/destroy; invalid closure kept.',
    ref='DESIGN.md §4 C01'),
+ 'C16': dict(
+   technique='Coq proof of permutation invariance over a model of the scanner\'s ordering points (sorted emission, main position, comment-block dict, tag namespace) + differential runs of the real pipeline in fresh processes',
+   text='Theorems (Coq, axiom-free): for every permutation of the members of a namespace or class with distinct (kind, name) the written '
+        'sequence is identical (C16_members_perm_invariant, generic insertion-sort lemma: two strictly sorted permutations are equal); '
+        'the sibling order is sorted by (alias first, name by code point) and a permutation of the input (C16_sibling_order, '
+        'C16_aliases_first); the main source position is independent of the iteration order of the position set and prefers a '
+        'definition to a typedef (C16_main_position_perm, C16_main_position_prefers_definition; refuted for the code as found by '
+        'C16_main_position_refuted_before_fix, fix 3ae31bf); the lookup of comment blocks with distinct identifiers is independent of '
+        'their order (C16_blocks_perm_invariant); typedef-then-struct, struct-then-typedef and a forward declaration before or after '
+        'give the same record (C16_typedef_struct_order, C16_forward_declaration_order). Tie: generated worlds are scanned by the '
+        'real Transformer/GDumpParser/MainTransformer/IntrospectablePass/GIRWriter in fresh processes under several PYTHONHASHSEED '
+        'values, permuted comment blocks, reordered typedef/struct/forward declarations and cold/warm dependency cache; all outputs '
+        'must be byte-identical, and the sibling sequences of the real output are checked against the model order inside Coq.',
+   note='Trusted: Coq kernel+VM; stub lexer (SourceSymbol trees are inputs); interpreter-level determinism is tested, not proved; the '
+        'order of unrelated declarations is the order of the C source and is not varied.',
+   ref='DESIGN.md §4 C16'),
 }
 
 PLANNED = {}
